@@ -348,6 +348,7 @@ def mon_C08(tr):
     ops, obs = tr.case["ops"], tr.res["obs"]
     last_trade = None
     prev = None          # previous qstate
+    prev_i = None        # ... and the index of the operation that read it
     fills_at, turn_at, nb_at, ns_at = {}, {}, {}, {}
     for i, (op, ob) in enumerate(zip(ops, obs)):
         t = tr.op_time[i]
@@ -392,8 +393,11 @@ def mon_C08(tr):
             if mid != want_mid:
                 out.append(V("mid-refreshed-from-quotes", i, got=mid, want=want_mid))
             if running:
-                want_mp = last_trade if last_trade is not None else (want_mid if want_mid is not None else (prev[10] if prev else None))
-                if prev is not None and mp != want_mp:
+                # "else unchanged" can only be judged against a reading taken right before this operation: if a clock step or another
+                # book event lies between the previous reading and it, the price it started from was not observed
+                fresh = prev_i is not None and all(ops[q][0] in ("qat", "qseries", "qtimes", "qstate", "run") for q in range(prev_i + 1, j))
+                want_mp = last_trade if last_trade is not None else (want_mid if want_mid is not None else (prev[10] if (prev and fresh) else None))
+                if prev is not None and want_mp is not None and mp != want_mp:
                     out.append(V("market-price-rule", i, got=mp, want=want_mp))
         if prev is not None and cause in ("add", "cancel", "exec") and not tr.op_running[j] and prev[0] == tt:
             if mp != prev[10]:
@@ -414,6 +418,7 @@ def mon_C08(tr):
             out.append(V("step-statistics", i, got=[vol, turn, nb, ns],
                          want=[fills_at.get(tt, 0), turn_at.get(tt, 0), nb_at.get(tt, 0), ns_at.get(tt, 0)]))
         prev = ob
+        prev_i = i
     # whole series at the end + vwap
     for i, (op, ob) in enumerate(zip(ops, obs)):
         if tr.aborted is not None:
